@@ -542,6 +542,34 @@ def run(tier, seed):
                 lx = Node("-", [Node("+", [lx, d]), d])
         for op in CMP:
             cases.append(Node(op, [lx, ly]))
+    # INTEGER against non-integral AMOUNT: the integer side arises from int(), and from a subtraction
+    # that cancels exactly (value_t simplifies it to INTEGER 0); the amount lies strictly between two
+    # integers, at every distance from them
+    n_ia = 80 if tier == "quick" else 1500
+    if search:
+        n_ia *= 5
+    for i in range(n_ia):
+        n = rng.choice([0, 0, 1, -1, 2, 7, -12, 1000])
+        frac = rng.choice([Fraction(1, 4), Fraction(2, 5), Fraction(1, 2), Fraction(3, 5), Fraction(9, 10), Fraction(1, 1000), Fraction(999, 1000)])
+        comm = rng.choice(["", "", "EUR", "USD"])
+        dec = 3 if not comm else COMMS[comm] if COMMS[comm] >= 3 else None
+        if dec is None:
+            frac = rng.choice([Fraction(1, 4), Fraction(1, 2), Fraction(3, 4)])
+            dec = 2
+        v = Fraction(n) + frac * rng.choice([1, -1])
+        amt = Leaf("amt", v, max(dec, 3 if v.denominator in (1000,) else dec), comm)
+        if (v * 10 ** amt.dec).denominator != 1:
+            continue
+        if rng.random() < 0.5:
+            ileaf = Leaf("int", n)
+        else:
+            z = gen_leaf(rng, "plain" if not comm else "comm")
+            if comm and z.comm != comm:
+                z = Leaf("amt", Fraction(3, 2), 2, comm)
+            ileaf = Node("-", [z, z]) if n == 0 else Leaf("int", n)
+        for op in CMP:
+            cases.append(Node(op, [ileaf, amt]))
+            cases.append(Node(op, [amt, ileaf]))
     # sub-display-precision residuals inside multi-commodity balances: (x C + y D) -/+ (x C * f)
     # with f = 1 - 10^-k, so that one component is non-zero but displays as zero (its precision
     # counter exceeds the commodity's display precision): nothing may be dropped or rounded
